@@ -247,25 +247,65 @@ func runOne(base string, p plan, barrier *sync.WaitGroup) (o outcome) {
 	ev("Launch(%s) invoked, schedule %s", p.Name, p.Kind)
 	var res lres
 	got := false
+	exists := func(path string) bool { _, err := os.Stat(path); return err == nil }
+	globbed := func(pattern string) bool { m, _ := filepath.Glob(pattern); return len(m) > 0 }
+	// waitOrReturn waits for a process of this launch to reach a pause point;
+	// Launch returning in the meantime ends the wait (it cannot legitimately:
+	// its daemon is still before Done())
+	waitOrReturn := func(reached func() bool) string {
+		deadline := time.Now().Add(30 * time.Second)
+		for time.Now().Before(deadline) {
+			if reached() {
+				return "reached"
+			}
+			select {
+			case res = <-done:
+				got = true
+				return "returned"
+			default:
+			}
+			time.Sleep(time.Millisecond)
+		}
+		return "timeout"
+	}
+	// early: the pause point was never reached. If Launch has returned, say what
+	// it returned; only a plain time-out is infrastructure trouble.
+	early := func(r, what string) {
+		if r != "returned" {
+			o.Infra = what
+			return
+		}
+		ev("Launch returned pid=%d err=%v while the harness was waiting (%s)", res.pid, res.err, what)
+		if res.err != nil {
+			fail("launch-error", "Launch returned error %q (%s)", res.err, what)
+			return
+		}
+		if b, err := os.ReadFile(filepath.Join(base, "pids", strconv.Itoa(res.pid))); err == nil && string(b) != p.Name {
+			daemonPid = res.pid
+			fail("wrong-handler", "Launch(%q) returned pid %d, but that process runs the handler registered as %q", p.Name, res.pid, b)
+			return
+		}
+		fail("launch-returned-before-done", "Launch returned (pid=%d) although %s", res.pid, what)
+	}
 	switch p.Kind {
 	case "S2":
 		// the launcher stays parked (before it listens for the signal) until
 		// the daemon reports that Done() has returned
-		if waitGlob(filepath.Join(dir, "after-start.reached.*"), 30*time.Second) == "" {
-			o.Infra = "launcher never reached the pause point"
+		if r := waitOrReturn(func() bool { return globbed(filepath.Join(dir, "after-start.reached.*")) }); r != "reached" {
+			early(r, "launcher never reached the pause point")
 			return
 		}
 		ev("launcher parked after starting the daemon")
-		if !waitFile(filepath.Join(dir, "d-done"), 30*time.Second) {
-			o.Infra = "daemon never reported Done()"
+		if r := waitOrReturn(func() bool { return exists(filepath.Join(dir, "d-done")) }); r != "reached" {
+			early(r, "daemon never reported Done()")
 			return
 		}
 		ev("daemon: Done() returned")
 		touch("after-start.go")
 		ev("launcher released")
 	case "S3":
-		if !waitFile(filepath.Join(dir, "d-pre.reached"), 30*time.Second) {
-			o.Infra = "daemon never reached its pre-Done point"
+		if r := waitOrReturn(func() bool { return exists(filepath.Join(dir, "d-pre.reached")) }); r != "reached" {
+			early(r, "daemon never reached its pre-Done point")
 			return
 		}
 		ev("daemon parked before Done()")
@@ -279,8 +319,10 @@ func runOne(base string, p plan, barrier *sync.WaitGroup) (o outcome) {
 		touch("d-pre.go")
 		ev("daemon released")
 	case "S4":
-		if waitGlob(filepath.Join(dir, "after-start.reached.*"), 30*time.Second) == "" || !waitFile(filepath.Join(dir, "d-pre.reached"), 30*time.Second) {
-			o.Infra = "launcher or daemon never reached its pause point"
+		if r := waitOrReturn(func() bool {
+			return globbed(filepath.Join(dir, "after-start.reached.*")) && exists(filepath.Join(dir, "d-pre.reached"))
+		}); r != "reached" {
+			early(r, "launcher or daemon never reached its pause point")
 			return
 		}
 		ev("launcher and daemon both parked")
